@@ -3,7 +3,7 @@
 checks so that the claimed level, technique and notes are edited in one place)."""
 import json, subprocess, os
 
-HOOK_COMMITS = ["beaccff", "1de206f", "b856256", "ead1da9", "78f565b"]
+HOOK_COMMITS = ["beaccff", "1de206f", "b856256", "ead1da9", "78f565b", "44dff6d"]
 
 CHECKS = {
  "C13": dict(
@@ -50,7 +50,7 @@ CHECKS = {
  "C15": dict(
   engine="inputs/depfile",
   category="exploration",
-  text="Abstract depfiles (up to 3 entries, up to 3 prerequisites incl. Windows-style paths) under every formatting or every formatting with a bounded number of deviations (spaces before the colon, gaps, backslash-newline continuations, blank lines, trailing blanks, final newline) are written to a real file and read by the real read_depfile; the result must be exactly the listed prerequisites in order. All strings up to a length bound over {a,space,:,\\,newline} and a NUL/CR/UTF-8 alphabet are checked for totality, diagnostic shape and that every reported word is a blank-free piece of the input; through the file path, errors must name the depfile.",
+  text="Abstract depfiles (up to 3 entries, up to 3 prerequisites incl. Windows-style paths) under every formatting or every formatting with a bounded number of deviations (spaces before the colon, gaps, backslash-newline continuations, blank lines, trailing blanks, final newline) are written to a real file and read by the real read_depfile; the result must be exactly the listed prerequisites in order. All strings up to a length bound over {a,space,:,\\,newline} and a NUL/CR/UTF-8 alphabet are checked for totality, diagnostic shape and that every reported word is a blank-free piece of the input; strings inside the plain core of the grammar (recognised by an independent reference recogniser: words, colon, blanks and backslash-newline gaps in any mixture, blank-only lines) must parse to exactly the reference prerequisites; through the file path, errors must name the depfile.",
   design_ref="DESIGN.md §4 C15",
   note="Trusted: the formatting generator in refdepfile.rs. Bounds: <=2/3 formatting deviations for multi-entry files, strings <=9/10.",
   technique="bounded exhaustive input enumeration (abstract depfile x formattings) against the abstract content",
@@ -58,16 +58,16 @@ CHECKS = {
  "C20": dict(
   engine="inputs/render",
   category="exploration",
-  text="The render helpers of the fancy progress display are called for every terminal width 10..300, 15 elapsed times across every digit count, messages that place a 1/2/3/4-byte character at every offset around the cut index, every short string over {a,é,€,😀}, every alignment for truncate, every count vector up to a bound for progress_bar, and whole frames through the real print_progress at forced widths; and the shipped binary under a real pty (util-linux script) at 7 widths x 4 character sizes x 4 shifts, which must complete the build normally; the result must not panic, must stay within the width at a character boundary and the bar must have its nominal width. Exhaustive within the bounds, which cover every residue of the byte arithmetic involved.",
-  design_ref="DESIGN.md §4 C20",
-  note="Not covered: the Mutex/Condvar/timeout protocol of the display thread (not modelled by loom); the consequence of a render panic for the build is argued from the code (the helpers are the only fallible code on that thread).",
-  technique="bounded exhaustive input enumeration with invariant oracle",
+  text="The render helpers of the fancy progress display are called for every terminal width 10..300, 15 elapsed times across every digit count, messages that place a 1/2/3/4-byte character at every offset around the cut index, every short string over {a,é,€,😀}, every alignment for truncate, every count vector up to a bound for progress_bar, and whole frames through the real print_progress at forced widths; and the shipped binary under a real pty (util-linux script) at 7 widths x 4 character sizes x 4 shifts, which must complete the build normally; the result must not panic, must stay within the width at a character boundary and the bar must have its nominal width (frames are painted from wide to narrow inside one process, i.e. across terminal resizes). Exhaustive within the bounds, which cover every residue of the byte arithmetic involved. The second half of the property (a rendering problem never aborts or alters the build) is decided on the thread protocol itself: loom explores every interleaving, up to a preemption bound, of the real FancyConsoleProgress display thread (Mutex + Condvar + timed wait, the timeout modelled as an event raised by a timer thread) against a main thread that plays every well-formed sequence of up to 3 (thorough 4) Progress calls followed by drop: no deadlock, no panic, every log line and finished-task block reaches the terminal exactly once and in order.",
+  design_ref="DESIGN.md §4 C20, §14",
+  note="The loom job runs on a scratch copy of /repo's working tree in which `std` is shadowed inside progress_fancy.rs so that std::sync/std::thread paths resolve to loom's types (tools/loom_prepare.sh); wait_timeout_while is supplied as std implements it; sleep is a yield. Loom explores sequentially consistent interleavings only (the code uses Mutex/Condvar, no weaker atomics) and up to the stated preemption bound (2, thorough 3).",
+  technique="bounded exhaustive input enumeration with invariant oracle; exhaustive thread-interleaving exploration (loom, preemption-bounded) of the real display thread protocol",
  ),
 
  "C01": dict(
   engine="sched",
   category="model_checking",
-  text="Stateless model checking of the real scheduler: the real run::build / Work::run / task::Runner run in-process with real task threads whose innermost run_command is a gate; at every Runner::wait the explorer decides which running command finishes next (and, where n2 iterates a HashSet, in which order newly ready dependents are visited) and the whole choice tree of every scenario is walked by re-execution. Scenarios: all 3-step graphs over all five edge options with a multi-output producer, optional phony step, both statement orders, -j 1..3; prebuilt trees with every edit vector and restat-like commands; every fail subset x -k x failure kind; curated diamond / multi-output / fan-in / restat-in-pool shapes; manifests regenerated by a generator step (thorough adds 4-step graphs and pools). The C01 monitor checks on every trace that at each command start every transitive ordering predecessor has finished successfully or never runs in that phase, that no command starts twice in a phase, and that n2 never blocks while a step whose ordering predecessors are done could start (so validation and discovered edges impose no ordering).",
+  text="Stateless model checking of the real scheduler: the real run::build / Work::run / task::Runner run in-process with real task threads whose innermost run_command is a gate; at every Runner::wait the explorer decides which running command finishes next (and, where n2 iterates a HashSet, in which order newly ready dependents are visited) and the whole choice tree of every scenario is walked by re-execution. Scenarios: all 3-step graphs over all five edge options with a multi-output producer, optional phony step, both statement orders, -j 1..3, with and without a source input of their own per step (so that steps with exactly one ordering input occur); prebuilt trees with every edit vector and restat-like commands; every fail subset x -k x failure kind; curated diamond / multi-output / fan-in / restat-in-pool shapes; manifests regenerated by a generator step (thorough adds 4-step graphs and pools). The C01 monitor checks on every trace that at each command start every transitive ordering predecessor has finished successfully or never runs in that phase, that no command starts twice in a phase, and that n2 never blocks while a step whose ordering predecessors are done could start (so validation and discovered edges impose no ordering).",
   design_ref="DESIGN.md §3.1, §4 C01",
   note="Assumes scripted commands (effects limited to their outputs, logical mtimes) and cooperative hand-offs between threads: one thread runs at a time, so only completion orders are explored, not preemptions inside n2's own code (Runner's channel protocol is straight-line).",
   technique="stateless exhaustive exploration of completion orders of the real implementation under a controlled (gated) executor, trace monitor against the abstract graph",
@@ -75,10 +75,10 @@ CHECKS = {
  "C04": dict(
   engine="sched",
   category="model_checking",
-  text="Same explorer as C01 on pool-centred scenario families: every assignment of {default, depth-1, depth-2, depth-0, console, undeclared} pools to 3 (thorough 4) steps over three shapes x -j x <=1 failing step, prebuilt pooled graphs under every edit vector with restat-like commands, regenerated manifests that change pool depths or add pools. At every command start the harness's own running set (from start/finish events, independent of n2's counters) must have at most -j members and at most depth members per bounded pool; n2's own running count seen at Runner::wait must equal it; a dirty step naming an undeclared pool must produce an `unknown pool` error and never start.",
-  design_ref="DESIGN.md §4 C04",
-  note="Same trusted base as C01. Real thread interleavings of Runner's accounting are not explored (loomrun was not built, see DESIGN.md).",
-  technique="stateless exhaustive exploration of completion orders under a gated executor, invariant checked at every start",
+  text="Same explorer as C01 on pool-centred scenario families: every assignment of {default, depth-1, depth-2, depth-0, console, undeclared} pools to 3 (thorough 4) steps over three shapes x -j x <=1 failing step, prebuilt pooled graphs under every edit vector with restat-like commands, regenerated manifests that change pool depths or add pools. At every command start the harness's own running set (from start/finish events, independent of n2's counters) must have at most -j members and at most depth members per bounded pool; n2's own running count seen at Runner::wait must equal it; a dirty step naming an undeclared pool must produce an `unknown pool` error and never start. Family PX puts more steps into one bounded pool than its depth next to default-pool steps competing for the -j slots (depth 1-2, -j up to depth+2, three declaration orders). The slot accounting of task::Runner itself (running, can_start_more, tids) is explored under all thread interleavings by the loom:runner job (2 tasks unbounded, 3 tasks with a preemption bound): started minus returned never exceeds the parallelism and always equals Runner.running, tids of simultaneously live tasks differ.",
+  design_ref="DESIGN.md §4 C04, §14",
+  note="Same trusted base as C01. The loom job runs on a scratch copy of the working tree in which `std` is shadowed inside task.rs so that mpsc/thread resolve to loom's types.",
+  technique="stateless exhaustive exploration of completion orders under a gated executor, invariant checked at every start; exhaustive thread-interleaving exploration (loom) of the real Runner",
  ),
  "C05": dict(
   engine="sched",
@@ -107,8 +107,8 @@ CHECKS = {
  "C19": dict(
   engine="sched",
   category="model_checking",
-  text="Same explorer with n2's Progress replaced by a recorder: at every Progress::update the state counts and the display's own total are compared with ground truth from the executor: total = number of non-phony steps of the reference wanted set of the phase (and = sum of the per-state counts), running = commands actually in flight, failed = failures so far, done/failed never decrease, done >= successes; task_started/task_finished pair up; the final `ran N` equals the number of successfully completed commands over both phases.",
-  design_ref="DESIGN.md §4 C19",
+  text="Same explorer with n2's Progress replaced by a recorder: at every Progress::update the state counts and the display's own total are compared with ground truth from the executor: total = number of non-phony steps of the reference wanted set of the phase (and = sum of the per-state counts), running = commands actually in flight, failed = failures so far, done/failed never decrease, done >= successes; task_started/task_finished pair up; the final `ran N` equals the number of successfully completed commands over both phases. What a terminal user would see is checked too: a real fancy-console state is fed behind the recorder and painted at every update, and the painted status line (`D/T done, F failed, R/Q running`, 40-column bar) must agree with the state counts and with the number of commands actually executing (steps carry hide_success / hide_progress).",
+  design_ref="DESIGN.md §4 C19, §14",
   note="The rendered text of the summary line is checked on the real binary by the proc jobs (once built).",
   technique="stateless exhaustive exploration under a gated executor, counters compared with executor ground truth at every update",
  ),
@@ -165,10 +165,10 @@ CHECKS = {
  "C16": dict(
   engine="proc + inputs/filter",
   category="exploration",
-  text="The shipped binary (hooks off) is run with real /bin/sh commands that observe themselves: their argv must be exactly /bin/sh -c <evaluated command> for 14 command strings covering quotes, expansions, redirections, lists, subshells, globs and UTF-8; stdin must be /dev/null; the only inherited descriptors are /dev/null and one pipe (never the log, never another command's pipe); the cwd is the build directory; nested output directories exist and the rspfile holds exactly the evaluated content. Output volumes at every pipe/buffer boundary 0..200000 bytes on stdout, stderr, alternating and from two concurrent commands must appear in n2's output exactly once and contiguously; every exit code 0..255 and every terminating signal must map to success / failure / interruption as stated, with -k 1 stopping the build; -j 1..16 with 2j commands must keep every command's 5 KB block contiguous; a command started while another runs must see only its own pipe and its completion must not wait for the unrelated command; output directories are re-created even if an earlier command of the invocation removed them; /showIncludes notes split across reads are filtered. The /showIncludes filter is enumerated exhaustively over all outputs of <= 7 (8) tokens against a reference filter.",
-  design_ref="DESIGN.md §3.5, §4 C16",
-  note="NOT decided by an exhaustive search: the kernel's interleaving of real children and pipe reads. The -j lattice is an enumeration of configurations, each run once; model checking of the collector threads with loom was not built (source substitution judged too fragile), so this property rests on the proc enumeration alone.",
-  technique="exhaustive enumeration of a finite configuration lattice on the real binary with self-observing commands; exhaustive input enumeration for the output filter",
+  text="The shipped binary (hooks off) is run with real /bin/sh commands that observe themselves: their argv must be exactly /bin/sh -c <evaluated command> for 14 command strings covering quotes, expansions, redirections, lists, subshells, globs and UTF-8; stdin must be /dev/null; the only inherited descriptors are /dev/null and one pipe (never the log, never another command's pipe); the cwd is the build directory; nested output directories exist and the rspfile holds exactly the evaluated content. Output volumes at every pipe/buffer boundary 0..200000 bytes on stdout, stderr, alternating and from two concurrent commands must appear in n2's output exactly once and contiguously; every exit code 0..255 and every terminating signal must map to success / failure / interruption as stated, with -k 1 stopping the build; -j 1..16 with 2j commands must keep every command's 5 KB block contiguous; a command started while another runs must see only its own pipe and its completion must not wait for the unrelated command; output directories are re-created even if an earlier command of the invocation removed them; /showIncludes notes split across reads are filtered. The /showIncludes filter is enumerated exhaustively over all outputs of <= 7 (8) tokens against a reference filter. `However many commands run at once` is decided for n2's own threads by loom: every interleaving of the real task::Runner (real task threads running the real run_task around a scripted run_command with 0-2 output chunks, hidden progress, failure, interruption, /showIncludes notes; 2 tasks unbounded, 3-4 tasks preemption-bounded) must return every started task from wait exactly once with exactly its bytes, deliver its last-line updates in order before its completion and never for a hidden task; and every interleaving of the fancy console's display thread with the main thread must print each finished task's block and each log line exactly once, contiguously and in order.",
+  design_ref="DESIGN.md §3.5, §4 C16, §14",
+  note="NOT decided by an exhaustive search: the kernel's interleaving of real children and pipe reads; the -j lattice is an enumeration of configurations, each run once. The loom jobs cover the protocol between n2's own threads on a scratch copy of the working tree with `std` shadowed inside task.rs / progress_fancy.rs (tools/loom_prepare.sh).",
+  technique="exhaustive enumeration of a finite configuration lattice on the real binary with self-observing commands; exhaustive input enumeration for the output filter; exhaustive thread-interleaving exploration (loom) of the collector and display threads",
  ),
 }
 
@@ -208,6 +208,7 @@ def main():
         },
         "engines": [
             {"name": "n2verif", "path": "/verif/harness", "serves_properties": sorted(CHECKS.keys()), "kind_free_text": "Rust harness: stateless exhaustive exploration of the real n2 code (scripted gated executor, history trees, crash-point enumeration, input enumeration) sharded over worker processes"},
+            {"name": "loomh", "path": "/verif/harness/loomh", "serves_properties": ["C04", "C16", "C20"], "kind_free_text": "loom 0.7 harness compiled into a scratch copy of /repo's working tree (tools/loom_prepare.sh): exhaustive, preemption-bounded exploration of all thread interleavings of the real task::Runner and FancyConsoleProgress"},
         ],
         "checks": checks,
         "not_applicable": na,
